@@ -140,6 +140,10 @@ func checkC05(c *Check) {
 			c.OK("REQ:"+strings.TrimPrefix(r, "C05."), "request phase", fmt.Sprintf("%d write sites in %d request-phase functions classified; none targets shared state", nStores, len(reqList)), nStores)
 		}
 	}
+	// the per-request chain is a fresh slice (C03.R7): appending the route's handlers onto the application's
+	// own list — or onto a grown copy that may alias it — makes overlapping requests write one backing array
+	c.curRule = "C05.R4"
+	c.Share("C03", []string{"R7"}, 3)
 	// the two Once-guarded caches exist and are Once-guarded
 	c.curRule = "C05.R1"
 	for _, tm := range [][2]string{{"Segment", "String"}, {"Route", "String"}} {
@@ -256,18 +260,25 @@ func checkC05(c *Check) {
 		ok := true
 		allInstrs(sh, func(in ssa.Instruction) {
 			ci, isC := in.(ssa.CallInstruction)
-			if !isC || callName(ci.Common()) != "dynamic" || !vCall("(route.Leaf).Handler")(ci.Common().Value) {
+			if !isC {
 				return
 			}
-			// every value the argument may stand for (results of a lookup step merged into one variable)
-			phiLeaves(ci.Common().Args[2], func(l ssa.Value) {
-				pm := strip(l)
-				_, isMM := pm.(*ssa.MakeMap)
-				isMatch := vExtract(1, vCall("(route.Tree).Match"))(pm)
-				if !isMM && !isMatch && !vNil(pm) {
-					ok = false
+			// whatever is called with a route.Params argument while serving (the leaf's handler, a handler kept
+			// in a table, the context creator): the map is this request's own
+			for _, a := range ci.Common().Args {
+				if namedName(a.Type()) != "Params" {
+					continue
 				}
-			})
+				// every value the argument may stand for (results of a lookup step merged into one variable)
+				phiLeaves(a, func(l ssa.Value) {
+					pm := strip(l)
+					_, isMM := pm.(*ssa.MakeMap)
+					isMatch := vExtract(1, vCall("(route.Tree).Match"))(pm)
+					if !isMM && !isMatch && !vNil(pm) {
+						ok = false
+					}
+				})
+			}
 		})
 		c.Cond(ok, p.FuncKey(sh)+":fresh-params", p.FuncPos(sh), "params handed to a chain are a fresh map or Match's result", "a chain receives a params map that is neither fresh nor the result of Match")
 	}
